@@ -87,6 +87,9 @@ def add_fake_extensions(root, cont):
                 f = os.path.join(d, 've%d%s' % (i, suf))
                 open(f, 'w').close()
                 made.append((pkg, 've%d' % i))
+            if 'vm' in c[0]:
+                # an extension module next to a source module of the same name: importlib prefers the extension
+                open(os.path.join(d, 'vm' + sufs[0]), 'w').close()
         for name, sub in c[1]:
             rec(os.path.join(d, name), sub, (pkg + '.' + name) if pkg else name)
     rec(root, cont, None)
@@ -219,7 +222,12 @@ def check_tree(workdir, t1, t2, top2, order, part, extensions=False):
             names.append('.'.join(parts))
     for name in names:
         if unloadable(name, roots):
-            part.count('names_of_fake_binary_modules_skipped')
+            # the binary file cannot be loaded; but supp must not resolve the name to some OTHER file
+            part.count('names_of_fake_binary_modules')
+            got = supp_origin(P, name)
+            if got[0] == 'file':
+                add('resolution:tree:importlib=binary-module:supp=source-file', 'name %r with roots %s: importlib selects %s, supp analyses %s' % (
+                    name, [os.path.basename(x) for x in roots], os.path.basename(ref_find(name, roots).origin), got[1].replace(workdir, '')))
             continue
         part.count('names_resolved')
         tag = 'shadowed-top-name' if (shadow and name.split('.')[0] in (tops[0] & tops[1])) else 'tree'
